@@ -106,6 +106,12 @@ impl RuntimeSettings {
                         }
                     }
 
+                    if within_replacment {
+                        // Unterminated `{`, keep it as it is
+                        new_component.push('{');
+                        new_component += &custom_option;
+                    }
+
                     new_path.push(new_component)
                 }
             } else {
